@@ -203,8 +203,11 @@ class _ReadSourceGenerator:
                     prev_was_bits = True
 
                 if bits_remaining == 0 or prev_bits_type != field_type:
+                    prev_bits_type = field_type
                     bits_remaining = (size * 8) - field.bits
                     bits_rollover = True
+                else:
+                    bits_remaining -= field.bits
 
                 yield from flush()
                 if bits_rollover or field.offset is not None:
